@@ -1,4 +1,5 @@
 import Model.Lookup
+import Gen.C09Switch
 import Drv.Common
 open Lookup Drv
 
@@ -120,18 +121,83 @@ def validT (s : St) (t : String) : Bool :=
   | some k => k < s.U.types.length
   | none => false
 
-def validCode (s : St) (c : String) : Bool :=
+/-- type codes: k = T_k, 100+k = *T_k, 200 int, 201 string, 300 fmt.Stringer, 301 error,
+    310 time.Duration, 311 time.Month, 312 the dynamic type of errors.New (operand only), n = nil -/
+def validCode (s : St) (c : String) (asCase : Bool) : Bool :=
   if c == "n" then true else
   match c.toNat? with
   | none => false
   | some k =>
-    if k == 200 || k == 201 then true
+    if k == 200 || k == 201 || k == 310 || k == 311 then true
+    else if k == 300 || k == 301 then asCase
+    else if k == 312 then !asCase
+    else if k ≥ 200 then false
     else
       let j := if k ≥ 100 then k - 100 else k
-      j < s.U.types.length && s.U.kindOf j != some Kind.iface && k < 200
+      j < s.U.types.length &&
+        (if s.U.kindOf j == some Kind.iface then asCase && k < 100 else true)
 
 def validClauses (s : St) (cl : String) : Bool :=
-  (cl.splitOn "/").all fun c => c == "d" || (c.splitOn ",").all (validCode s)
+  (cl.splitOn "/").all fun c => c == "d" || (c.splitOn ",").all (fun x => validCode s x true)
+
+def isIfaceCode (U : Universe) : Option Nat → Bool
+  | none => false
+  | some k => k == 300 || k == 301 || (k < 100 && U.kindOf k == some Kind.iface)
+
+/-- method names of the dynamic type `dyn` (Go method set) -/
+def dynHas (U : Universe) (dyn : Option Nat) (name : String) : Bool :=
+  match dyn with
+  | none => false
+  | some k =>
+    if k < 100 then methodSetHas U k false name
+    else if k < 200 then methodSetHas U (k - 100) true name
+    else if k == 310 || k == 311 then name == "String"
+    else if k == 312 then name == "Error"
+    else false
+
+def ifaceMethods (U : Universe) (k : Nat) : List String :=
+  if k == 300 then ["String"] else if k == 301 then ["Error"] else (U.methodsOf k).map (·.name)
+
+/-- xr.Type.Implements on the operand's xr.Type -/
+def implementsX (U : Universe) (dyn : Option Nat) (k : Nat) : Bool :=
+  (ifaceMethods U k).all (dynHas U dyn)
+
+/-- reflect.Type.Implements on the operand's reflect.Type: only compiled types have methods there -/
+def reflImpl (dyn : Option Nat) (k : Nat) : Bool :=
+  (k == 300 && (dyn == some 310 || dyn == some 311)) || (k == 301 && dyn == some 312)
+
+def tswStep (s : St) (cl d tag : String) : St × String :=
+  let tagE := tag == "e"
+  let tagOK := tagE || (validT s tag && s.U.kindOf (natOf tag) == some Kind.iface)
+  if !(validClauses s cl && validCode s d false && tagOK) then (s, "bad-op") else
+  let dyn := parseTy d
+  let U := s.U
+  let rt := rtOf U
+  let conc := fun ty => !isIfaceCode U ty
+  -- interface case on an interface{} tag: reflect only
+  let imE := fun (ty : Option Nat) => dyn != none && reflImpl dyn (ty.getD 0)
+  let ct : Clause → Bool :=
+    if tagE then clauseTest (mtEmpty rt conc imE dyn) (mtEmpty rt conc imE dyn)
+    else
+      -- the tag is an interpreted interface: the operand carries its xr.Type
+      let mt1 := fun (ty : Option Nat) =>
+        match ty with
+        | none => dyn == none
+        | some k =>
+          if isIfaceCode U ty then dyn != none && (reflImpl dyn k || implementsX U dyn k)
+          else dyn != none && rt ty == rt dyn && ty == dyn
+      let mtN := fun (ty : Option Nat) => if conc ty then rt ty == rt dyn else imE ty
+      clauseTest mt1 mtN
+  -- observed defects of the real code (reported by the compiled-Go oracle under their own keys):
+  -- a nil interpreted interface panics in xr.FromEmulatedInterface; a value of a named basic
+  -- type is not converted when passed as an interpreted-interface argument
+  let dynOther := match dyn with
+    | some k => k < 100 && U.kindOf k == some Kind.other
+    | none => false
+  if !tagE && (dyn == none || dynOther) then (s, "arm ?")
+  else
+    let r := tsDispatch Gen.C09.concreteMapGuardedByAllConcrete rt conc ct dyn (parseClauses cl)
+    (s, match r with | some i => "arm " ++ toString i | none => "arm -")
 
 def stepC09 (s : St) (line : String) : St × String :=
   let (op, arg) := cut line
@@ -163,11 +229,8 @@ def stepC09 (s : St) (line : String) : St × String :=
     | _ => (s, "bad-op")
   | "tsw" =>
     match arg.splitOn " @ " with
-    | [cl, d] =>
-      if !(validClauses s cl && validCode s d) then (s, "bad-op") else
-      let dyn := parseTy d
-      let r := tsDispatch (rtOf s.U) (fun _ => true) dyn (parseClauses cl)
-      (s, match r with | some i => "arm " ++ toString i | none => "arm -")
+    | [cl, d] => tswStep s cl d "e"
+    | [cl, d, tag] => tswStep s cl d tag
     | _ => (s, "bad-op")
   | _ => (s, "bad-op")
 
